@@ -190,9 +190,15 @@ func genUniverse(r *rand.Rand) *universe {
 			}
 			dup := false
 			for _, e := range uv.Reqs {
-				dup = dup || e.Path == q.Path
+				dup = dup || (e.Path == q.Path && e.Version == q.Version)
 			}
-			if !dup {
+			// one project may be required twice under different names at different versions
+			// (both edges count), but most projects list each path once
+			samePath := false
+			for _, e := range uv.Reqs {
+				samePath = samePath || e.Path == q.Path
+			}
+			if !dup && (!samePath || r.IntN(3) == 0) {
 				uv.Reqs = append(uv.Reqs, module.Version{Path: q.Path, Version: q.Version})
 			}
 		}
